@@ -23,7 +23,9 @@
       with the textbook PATH definition  dconn_walk_iff_path, mconn_walk_iff_path, simplify_dsep_invariant_path,
       of C04 and the C04 model ........  dsep_iff_msep_projection_path, lvdag_dsep_model_eq_projection,
                                          simplify_preserves_dsep_model, simplify_dsep_verdict_iff_no_path
-    verdicts from the projection ...... verdict_invariant
+    identifiability unchanged ......... id_verdict_equiv_congr (ID model of C02 respects `__eq__`, any topological
+                                         orders), simplify_id_verdict, evans_id_verdict, evans_id_verdict_latents
+    verdicts from the projection ...... verdict_invariant (any function respecting `__eq__`)
     evans_simplify .................... evans_projection, evans_id
   Nothing is `_partial`.  The separation theorems of section 2b are proved for the walk formulation; section 2c
   proves it equal to the simple-path definition `MG.MConnPath` of Y0/Spec/SepSpec.lean (the one property C04
@@ -36,6 +38,8 @@ import Y0.Lemmas.LatentSepRule1
 import Y0.Lemmas.LatentMsep
 import Y0.Lemmas.LatentPath
 import Y0.Props.C04
+import Y0.Props.C02
+import Y0.Lemmas.LatentIdCongr
 
 namespace Y0.LV
 open MG
@@ -337,6 +341,53 @@ theorem simplify_dsep_verdict_iff_no_path (prime : Nat → Nat) (hp : ∀ n, n <
 /- non-vacuity of 2c: in `exampleDag` (defined below) `2` and `3` are observed, distinct, and joined by
 the d-connecting simple path `2 ← 10 → 11 → 3` — see the examples at the end of the file -/
 
+/-! ## 2d. identifiability verdicts among observed nodes are unchanged
+
+`identify topo G X Y` is the model of `y0.algorithm.identify.identify` (Y0/Model/Id.lean, property C02); `topo`
+stands for `graph.topological_sort()`, whose result depends on insertion order / hash seed, so the theorems
+quantify over EVERY pair of admissible sorters (`TopoGood`: returns a list of exactly the nodes).
+`(identify …).isOk` is the verdict: `true` = an estimand is returned, `false` = `Unidentifiable`
+(`id_total`: nothing else happens on a valid query). -/
+
+/-- **The ID verdict respects `NxMixedGraph.__eq__`** and does not depend on the topological orders used:
+two constructions of the same graph (any insertion order) give the same verdict on every valid query. -/
+theorem id_verdict_equiv_congr {t1 t2 : MG Name → Except Err (List Name)} (ht1 : TopoGood t1) (ht2 : TopoGood t2)
+    (G H : MG Nat) (X Y : List Nat) (hq : ValidQuery G X Y) (hH : H.WF) (h : G.equiv H = true) :
+    (identify t1 G X Y).isOk = (identify t2 H X Y).isOk :=
+  identify_isOk_congr ht1 ht2 hq hH (gsim_of_equiv h) (fun _ => Iff.rfl) (fun _ => Iff.rfl)
+
+/-- the latent projection of an acyclic LV-DAG is acyclic -/
+theorem projection_acyclic {D : LV} {G : MG Nat} (hG : IsProjection D G) (ha : D.Acyclic) : G.Acyclic := by
+  have key : ∀ a b, Relation.TransGen G.DiEdge a b → Relation.TransGen D.Edge a b := by
+    intro a b hab
+    induction hab with
+    | single e => exact ((hG.di _ _).1 e).2.2.transGen
+    | tail _ e ih => exact ih.trans ((hG.di _ _).1 e).2.2.transGen
+  exact fun v hv => ha v (key v v hv)
+
+/-- queries over the observed nodes are valid queries of every latent projection -/
+theorem projection_validQuery {D : LV} {G : MG Nat} (hG : IsProjection D G) (hGw : G.WF) (ha : D.Acyclic)
+    (X Y : List Nat) (hY : ∀ y ∈ Y, D.Observed y) (hne : Y ≠ []) (hdisj : ∀ y ∈ Y, y ∉ X) : ValidQuery G X Y :=
+  ⟨hGw, MG.acyclic_ranked hGw (projection_acyclic hG ha), fun y hy => (hG.nodes y).2 (hY y hy), hne, hdisj⟩
+
+/-- **Identifiability verdicts are unchanged by the simplification.**  For every query over the observed
+nodes, ID run on the mixed graph read off the simplified DAG gives the verdict ID gives on any latent
+projection `G0` of the ORIGINAL DAG (no congruence hypothesis: `id_verdict_equiv_congr`). -/
+theorem simplify_id_verdict (prime : Nat → Nat) (hp : ∀ n, n < prime n) (D : LV) (hw : D.WF) (ha : D.Acyclic)
+    (r : SimplifyResults) (h : D.simplify prime = .ok r) (G0 : MG Nat) (hG0 : IsProjection D G0) (hG0w : G0.WF)
+    {t1 t2 : MG Name → Except Err (List Name)} (ht1 : TopoGood t1) (ht2 : TopoGood t2)
+    (X Y : List Nat) (hY : ∀ y ∈ Y, D.Observed y) (hne : Y ≠ []) (hdisj : ∀ y ∈ Y, y ∉ X) :
+    ∃ G, r.graph.toMG? = .ok G ∧ (identify t1 G X Y).isOk = (identify t2 G0 X Y).isOk ∧
+      (identify t1 G X Y = .error .unidentifiable ↔ identify t2 G0 X Y = .error .unidentifiable) := by
+  obtain ⟨G, hG, hproj⟩ := simplify_projection prime hp D hw ha r h
+  have hGw := toMG?_wf _ G hG
+  have hq := projection_validQuery hproj hGw ha X Y hY hne hdisj
+  have hq0 := projection_validQuery hG0 hG0w ha X Y hY hne hdisj
+  have hv := id_verdict_equiv_congr ht1 ht2 G G0 X Y hq hG0w (hproj.equiv hG0)
+  refine ⟨G, hG, hv, ?_⟩
+  rcases id_total ht1 G X Y hq with ⟨e, he⟩ | he <;> rcases id_total ht2 G0 X Y hq0 with ⟨e', he'⟩ | he' <;>
+    rw [he, he'] at hv ⊢ <;> simp [Except.isOk, Except.toBool] at hv ⊢
+
 /-! ## 3. `evans_simplify` (ADMG → LV-DAG, mark extra latents, simplify, read back) -/
 
 /-- `evans_simplify(G, latents=extra)` never raises on an acyclic mixed graph and returns the latent
@@ -361,6 +412,41 @@ theorem evans_id (fresh prime : Nat → Nat) (hinj : Function.Injective fresh) (
   obtain ⟨H, hH, hproj⟩ := evans_projection fresh prime hinj hp G hG ha []
   rw [markLatent_nil] at hproj
   exact ⟨H, hH, hproj.equiv (toLV_is_projection fresh hinj G hG hloop)⟩
+
+theorem evansSimplify_wf (fresh prime : Nat → Nat) (G : MG Nat) (extra : List Nat) (H : MG Nat)
+    (h : evansSimplify fresh prime G extra = .ok H) : H.WF := by
+  unfold evansSimplify at h
+  simp only [bind, Except.bind] at h
+  split at h
+  · cases h
+  · exact toMG?_wf _ H h
+
+/-- **`evans_id_verdict`**: ID gives the same verdict on `evans_simplify(G)` as on `G`, for every valid
+query and every pair of admissible topological sorters — no hypothesis that ID respects `__eq__` -/
+theorem evans_id_verdict (fresh prime : Nat → Nat) (hinj : Function.Injective fresh) (hp : ∀ n, n < prime n)
+    (G : MG Nat) (hG : G.WF) (ha : G.Acyclic) (hloop : ∀ e ∈ G.bi, e.1 ≠ e.2)
+    {t1 t2 : MG Name → Except Err (List Name)} (ht1 : TopoGood t1) (ht2 : TopoGood t2)
+    (X Y : List Nat) (hY : ∀ y ∈ Y, y ∈ G.nodes) (hne : Y ≠ []) (hdisj : ∀ y ∈ Y, y ∉ X) :
+    ∃ H, evansSimplify fresh prime G [] = .ok H ∧ (identify t1 H X Y).isOk = (identify t2 G X Y).isOk := by
+  obtain ⟨H, hH, heq⟩ := evans_id fresh prime hinj hp G hG ha hloop
+  have hq : ValidQuery G X Y := ⟨hG, MG.acyclic_ranked hG ha, hY, hne, hdisj⟩
+  refine ⟨H, hH, ?_⟩
+  exact (id_verdict_equiv_congr ht2 ht1 G H X Y hq (evansSimplify_wf _ _ _ _ _ hH) (MG.equiv_symm _ _ heq)).symm
+
+/-- with extra latents: the verdict on `evans_simplify(G, latents)` is the verdict on any latent
+projection `G0` of the LV-DAG of `G` with the extra nodes marked latent -/
+theorem evans_id_verdict_latents (fresh prime : Nat → Nat) (hinj : Function.Injective fresh) (hp : ∀ n, n < prime n)
+    (G : MG Nat) (hG : G.WF) (ha : G.Acyclic) (extra : List Nat) (G0 : MG Nat)
+    (hG0 : IsProjection ((ofMG fresh G).markLatent extra) G0) (hG0w : G0.WF)
+    {t1 t2 : MG Name → Except Err (List Name)} (ht1 : TopoGood t1) (ht2 : TopoGood t2)
+    (X Y : List Nat) (hY : ∀ y ∈ Y, ((ofMG fresh G).markLatent extra).Observed y) (hne : Y ≠ [])
+    (hdisj : ∀ y ∈ Y, y ∉ X) :
+    ∃ H, evansSimplify fresh prime G extra = .ok H ∧ (identify t1 H X Y).isOk = (identify t2 G0 X Y).isOk := by
+  obtain ⟨H, hH, hproj⟩ := evans_projection fresh prime hinj hp G hG ha extra
+  have hac : ((ofMG fresh G).markLatent extra).Acyclic := ofMG_acyclic fresh hinj G hG ha
+  have hHw := evansSimplify_wf _ _ _ _ _ hH
+  exact ⟨H, hH, id_verdict_equiv_congr ht1 ht2 H G0 X Y
+    (projection_validQuery hproj hHw hac X Y hY hne hdisj) hG0w (hproj.equiv hG0)⟩
 
 /-! ## non-vacuity: an LV-DAG on which every rule fires
 
